@@ -198,7 +198,9 @@ def obligations(tier, seed):
     obs.append(ob_flux2ab(2))
     obs.append(ob_filter_thru(1, 6, 3800.0, 9200.0, 0))
     obs.append(ob_filter_thru(2, 6, 4000.0, 8000.0, 0b000100))
+    obs.append(ob_filter_thru(1, 6, 9200.0, 3800.0, 0))          # wavelengths decreasing with pixel index
     if not q:
+        obs.append(ob_filter_thru(2, 6, 8000.0, 4000.0, 0b010000))
         obs.append(ob_filter_thru(2, 8, 3500.0, 10500.0, 0b00100100))
         obs.append(ob_filter_thru(1, 7, 5000.0, 7000.0, 0b0000011))
         obs.append(ob_filter_thru(1, 6, 12000.0, 15000.0, 0))
@@ -288,7 +290,7 @@ def replay(rec):
             good = ~mask if mask is not None else np.ones_like(fl, dtype=bool)
             for t in range(ntrace):
                 for b in range(5):
-                    if abs(one[t, b]) > 0.5:
+                    if abs(one[t, b]) > 1e-12:
                         lo, hi = fl[t][good[t]].min(), fl[t][good[t]].max()
                         if res[t, b] < lo - tol or res[t, b] > hi + tol:
                             return True
